@@ -12,6 +12,7 @@ import (
 	"os"
 	"path/filepath"
 	"regexp"
+	"runtime"
 	"runtime/pprof"
 	"sort"
 	"strconv"
@@ -170,6 +171,20 @@ func cmdCheck(args []string) int {
 		to = 10
 		if *tier == "thorough" {
 			to = 60
+		}
+		// on a machine that is busier than it has cores (several checks started at once) solver time stretches: the
+		// budget stretches with it (up to four times), so that load alone does not turn into timeouts
+		if b, err := os.ReadFile("/proc/loadavg"); err == nil {
+			if f := strings.Fields(string(b)); len(f) > 0 {
+				if load, err := strconv.ParseFloat(f[0], 64); err == nil {
+					if k := load / float64(runtime.NumCPU()); k > 1 {
+						if k > 4 {
+							k = 4
+						}
+						to = int(float64(to) * k)
+					}
+				}
+			}
 		}
 	}
 	// one directory per run (two runs of the same property may overlap); directories of finished runs are removed
